@@ -70,6 +70,11 @@ func NewSnippet(b []byte, opts ...SnippetOption) *Snippet {
 	// Work out the start and end lines of the snippet
 	snippet.start = max(snippet.line-snippet.padding, 1)
 	snippet.end = min(snippet.line+snippet.padding, len(linesRaw)-1)
+	// The YAML parser also counts CR, NEL, LS and PS as line breaks and the
+	// highlighter may change the number of lines, so the reported line can lie
+	// beyond either list: never slice outside of them.
+	snippet.end = max(min(snippet.end, len(linesHighlighted)), 0)
+	snippet.start = min(snippet.start, snippet.end+1)
 	snippet.linesRaw = linesRaw[snippet.start-1 : snippet.end]
 	snippet.linesHighlighted = linesHighlighted[snippet.start-1 : snippet.end]
 
